@@ -61,6 +61,12 @@ CHECKS['C16'] = ('E-IO', 'engines/e_io.py',
     'the integrator is a fake; displacement between active updates below the inlet and fluid lengths; 1e-9 band around the code\'s own 1e-6 threshold',
     'DESIGN.md section 3 E-IO')
 
+CHECKS['C05'] = ('E-OMP', 'engines/e_omp.py',
+    'deterministic simulation: whole Application runs under a seeded option swarm and, through guarded hooks, a simulated OpenMP schedule (drawn chunking, chunk-to-thread assignment, global execution order, cache thread ids); metamorphic relations to a serial linked-list baseline; write-set monitor at chunk boundaries',
+    'seeded search over (problem: free-surface / two-array wall-bounded / periodic) x --nnps (10 values + knobs) x --cache-nnps x --sort-gids x --reorder-freq x valid/invalid gids x schedule (serial, real OpenMP 1-16 threads, simulated k threads with static/dynamic/guided chunking in a drawn interleaving); R1 bit-identical when sorted, R2 per-particle equality within 1e-7 otherwise, R3 repeat bit-identical; sampled check that a loop chunk writes only its own destination rows. Sampling, not proof.',
+    'simulated schedule has iteration granularity (interference inside one iteration is only covered by real-OpenMP outcome); problems are 3 shipped examples at 25-500 particles, 2-8 steps; hooks H1/H2 in /repo (guarded)',
+    'DESIGN.md section 3 E-OMP')
+
 PENDING = {}
 
 
@@ -101,7 +107,7 @@ def main():
         f.write('\n')
 
 
-HOOK_COMMITS = []
+HOOK_COMMITS = ['a3361d4', '98bab96']
 
 if __name__ == '__main__':
     for pid in ['C01', 'C03', 'C04', 'C05', 'C06', 'C07', 'C09', 'C10', 'C14', 'C16', 'C17']:
